@@ -585,6 +585,10 @@ package builder
 //@   before builder.writeExprCode#9 assert [seq-same-scope C04 C02] len(b.argsStack) == old(len(b.argsStack))
 //@   before builder.writeExprCode#10 assert [star-opens-scope C04 C02] len(b.argsStack) == old(len(b.argsStack)) + 1
 //@   before builder.writeExprCode#11 assert [opt-opens-scope C04 C02] len(b.argsStack) == old(len(b.argsStack)) + 1
+// the code blocks of BOTH children of a recovery expression are emitted (C04: the grammar literal refers to a method for
+// every code block; C14: a recovery expression may contain actions)
+//@   must-call builder.writeExprCode [code-of-recovery-expr C04 C14] if is(expr, "*ast.RecoveryExpr") && as(expr, "*ast.RecoveryExpr") != nil then expr == atcall(as(outer(expr), "*ast.RecoveryExpr").Expr)
+//@   must-call builder.writeExprCode [code-of-recovery-recover C04 C14] if is(expr, "*ast.RecoveryExpr") && as(expr, "*ast.RecoveryExpr") != nil then expr == atcall(as(outer(expr), "*ast.RecoveryExpr").RecoverExpr)
 //@   loop#1 invariant [bal] b != nil && TreeWF() && CodeWF() && len(b.argsStack) == old(len(b.argsStack)) && forall k int :: 0 <= k && k < len(b.argsStack) - 1 ==> b.argsStack[k] == old(b.argsStack[k])
 //@   loop#2 invariant [bal] b != nil && TreeWF() && CodeWF() && len(b.argsStack) == old(len(b.argsStack)) && forall k int :: 0 <= k && k < len(b.argsStack) - 1 ==> b.argsStack[k] == old(b.argsStack[k])
 //@   safety C13
